@@ -189,6 +189,9 @@ class Translator:
         if el.tag != q("simpleType"):
             raise TranslateError("%s is not a simple type" % key)
         r = self.simple_type_inline(d, el)
+        if r.startswith(".restrict") or r.startswith(".prim"):
+            # a named type is a type of its own, also when it adds no facet to its base
+            r = ".restrict (%s) (.named %d)" % (r, len(self.simple_cache))
         self.simple_cache[key] = r
         return r
 
